@@ -10,8 +10,11 @@ package kvql
 //
 // One column per field, in order, each the value of that field's expression on the pair -
 // whether it comes out of the row cache or is evaluated now.
+// Every documented value kind can be shown (D24 repaired: the lists that split / list / int_list /
+// float_list return were refused row by row and shown in batch mode).
+//@ define shown(x Any) Bool = isnil(x) || isbool(x) || isText(x) || isInt(x) || isFlt(x) || is(x, []string) || is(x, []int64) || is(x, []float64) || is(x, []any)
 //@ func (p *ProjectionPlan) processProjection(kvp KVPair, ctx *ExecuteCtx) (ret []Column, err error)
-//@   props C05
+//@   props C05 C03
 //@   ghost k Int
 //@   requires wfProj(p) && coherent(ctx, val(kvp.Key), val(kvp.Value)) && wfCtx(ctx) && wfRefs()
 //@   assigns ctx.Hit, mapof(ctx.FieldCaches)
@@ -19,8 +22,10 @@ package kvql
 //@   ensures[C05] column: err == nil && 0 <= k && k < len(p.Fields) ==> ret[k] == evalv(p.Fields[k], val(kvp.Key), val(kvp.Value))
 //@   ensures[C05] evaluable: err == nil && 0 <= k && k < len(p.Fields) ==> evalok(p.Fields[k], val(kvp.Key), val(kvp.Value))
 //@   ensures[C05] coherent: coherent(ctx, val(kvp.Key), val(kvp.Value))
+//@   ensures[C03] total: (forall j Int :: 0 <= j && j < len(p.Fields) ==> evalok(p.Fields[j], val(kvp.Key), val(kvp.Value)) && shown(evalv(p.Fields[j], val(kvp.Key), val(kvp.Value)))) ==> err == nil
 //@   loop 0
 //@     invariant 0 <= i && i <= nFields && nFields == len(p.Fields) && len(ret) == nFields && fresh(ret)
+//@     invariant[C03] noerr: err == nil
 //@     invariant coherent(ctx, val(kvp.Key), val(kvp.Value))
 //@     invariant 0 <= k && k < i ==> ret[k] == evalv(p.Fields[k], val(kvp.Key), val(kvp.Value)) && evalok(p.Fields[k], val(kvp.Key), val(kvp.Value))
 //@     use p.FieldNames[i]
